@@ -89,6 +89,9 @@ func firstLines(s string, n int) string {
 }
 
 // coneOfInfluence keeps the assumptions connected to the goal through shared symbols.
+// coiNoHubs: allocation-set symbols do not count as links (used for the small-cone first attempt).
+var coiNoHubs bool
+
 func coneOfInfluence(assume []*Term, roots []*Term) []*Term {
 	type info struct {
 		t    *Term
@@ -107,6 +110,9 @@ func coneOfInfluence(assume []*Term, roots []*Term) []*Term {
 		for k := range s {
 			if strings.HasPrefix(k, "uf:$ptag") {
 				delete(s, k)
+			}
+			if coiNoHubs && (strings.Contains(k, "$alloc") || strings.Contains(k, "alloc_after")) {
+				delete(s, k) // allocation sets link every heap fact to every other one
 			}
 		}
 		symCache[t] = s
@@ -293,6 +299,9 @@ func dischargeFlat(obls []*Obl, outDir string, secs int, par int) {
 	var wg sync.WaitGroup
 	sem := make(chan struct{}, par)
 	for i, o := range obls {
+		if o.Solver == "callgraph" && o.Status != "" {
+			continue // decided on the call graph, not by a solver
+		}
 		if o.Trivial && !o.ExpectSat {
 			o.Status = "discharged"
 			o.Solver = "syntactic"
@@ -305,7 +314,7 @@ func dischargeFlat(obls []*Obl, outDir string, secs int, par int) {
 		}
 		i, o := i, o
 		// scripts are built sequentially (term tables are not thread safe)
-		var script, script2, scriptInst string
+		var script, script2, scriptInst, scriptSmall string
 		var mnames []string
 		if o.ExpectSat {
 			// vacuity check over the quantifier-free assumptions (models of quantified formulas are
@@ -330,6 +339,23 @@ func dischargeFlat(obls []*Obl, outDir string, secs int, par int) {
 			mnames = ns
 			goal := expandExists(goalSk, append(append([]*Term{}, as...), o.Reach))
 			script = Script(append(as, o.Reach), goal, true, mts)
+			if len(as) > 150 && !hasQuantifier(goal, map[*Term]bool{}) {
+				// large unit: first try the part of the hypotheses that is linked to the goal without
+				// going through the allocation sets, quantifier-free (a subset of the hypotheses: an
+				// unsat answer discharges the obligation)
+				coiNoHubs = true
+				small := coneOfInfluence(o.Assume, roots)
+				coiNoHubs = false
+				if len(small) < len(as)*2/3 {
+					var qf []*Term
+					for _, a := range small {
+						if !hasQuantifier(a, map[*Term]bool{}) {
+							qf = append(qf, a)
+						}
+					}
+					scriptSmall = Script(append(qf, o.Reach), goal, false, nil)
+				}
+			}
 			if !hasQuantifier(goal, map[*Term]bool{}) && instFirst {
 				// the same query without the quantified hypotheses (their ground instances stay): if this
 				// weaker query is already unsat the obligation is discharged, and the solvers answer it fast
@@ -367,6 +393,14 @@ func dischargeFlat(obls []*Obl, outDir string, secs int, par int) {
 			defer wg.Done()
 			defer func() { <-sem }()
 			file := filepath.Join(outDir, fmt.Sprintf("%03d_%s.smt2", i, sanitize(o.Name)))
+			if scriptSmall != "" {
+				r0 := race(scriptSmall, file+".small.smt2", 4)
+				os.Remove(file + ".small.smt2")
+				if r0.verdict == "unsat" {
+					o.Status, o.Solver, o.Ms = "discharged", r0.solver+"+smallcone", r0.ms
+					return
+				}
+			}
 			if scriptInst != "" {
 				t := secs / 3
 				if t > 10 {
